@@ -11,7 +11,7 @@ EXPLANATION = (
     "Thin, structural claim. R10a: Initialization.from_result (capture) and Initialization.apply (restore) range over every compartment of every population, use the same "
     "key shape, split on the same TimedCompartment test and pair per-row storage with per-row storage and scalar with scalar. R10b: at index 0 parameters and then links are "
     "evaluated before the stepping loop, so flows and parameters exist at the restart year. R10c: a saved state short-circuits the characteristic solve (= R07b). "
-    "R10d: the metadata written to the calibration spreadsheet are attributes the loader can restore. That the captured state is a complete Markov state, and spreadsheet "
+    "R10e: nothing between applying the saved state and the first step rewrites a restored compartment: the initial junction flush acts only on junctions that hold people (adding 0 to a timed compartment re-spreads it uniformly). R10d: the metadata written to the calibration spreadsheet are attributes the loader can restore. That the captured state is a complete Markov state, and spreadsheet "
     "precision, are not decided."
 )
 
@@ -23,6 +23,7 @@ def run(ctx):
     ctx.rule("R10c", "saved state wins: apply_initialization returns before the characteristic system is solved")
     ctx.each(_r07b_as, ctx, repo)
     ctx.each(r10d, ctx, repo)
+    ctx.each(r10e, ctx, repo)
 
 
 def _r07b_as(ctx, repo):
@@ -166,3 +167,23 @@ def r10d(ctx, repo):
         ctx.check(key in attrs and ast.unparse(v) == "%s.%s" % (me, key), "R10d", te, md[0], "metadata `%s` written from the attribute of the same name" % key, "metadata key `%s` is written from `%s`; from_excel restores it with setattr(self, key, value), so the attribute `%s` %s" % (key, ast.unparse(v), key, "does not exist on the class" if key not in attrs else "receives another attribute's value"))
     fe = repo.func("parameters", "Initialization.from_excel")
     ctx.check(any(isinstance(c, ast.Call) and astq.is_name(c.func, "setattr") for c in own_nodes(fe.node)), "R10d", fe, fe.node, "from_excel restores metadata by key", "Initialization.from_excel no longer restores the metadata by key")
+
+
+def r10e(ctx, repo):
+    from . import c04
+
+    ctx.rule("R10e", "the initial junction flush does nothing for an empty junction (a restored state has empty junctions; `dest[0] += 0` would flatten the elapsed-time bins of a timed destination)")
+    n = 0
+    for ci in repo.subclasses(repo.cls("model", "JunctionCompartment")):
+        if "initial_flush" in ci.methods:
+            fi = ci.methods["initial_flush"]
+            me = K.self_name(fi)
+            guards = [s for s in own_nodes(fi.node) if isinstance(s, ast.If) and ("%s.vals[0]" % me) in ast.unparse(s.test) and any("dest[0]" in ast.unparse(x) for x in ast.walk(s))]
+            ctx.require(len(guards) == 1, "R10e: %s: guard on self.vals[0] around the flush not found" % fi.fq)
+            c04.flush_guard_region(ctx, fi, guards[0], me, "R10e")
+            # every write to a destination is inside that guard
+            for s_, t_, k_, v_ in astq.stores(fi.node):
+                if "dest[0]" in ast.unparse(t_):
+                    ctx.check(any(s_ is x for x in ast.walk(guards[0])), "R10e", fi, s_, "destination written only under the guard", "`%s` writes a destination outside the guard" % norm(s_)[:60])
+            n += 1
+    ctx.require(n >= 2, "R10e: fewer initial_flush implementations (%d) than confirmed (2)" % n)
